@@ -235,6 +235,8 @@ Case generate(vf::Src& src, const std::string& mode)
     bool faults = !is07 && src.coin(25);
     for (int i = 0; i < n; ++i)
     {
+        if (i > 0 && src.skip())
+            continue; // lets the shrinker drop operations
         Op op;
         op.a = src.irange(0, NSLOT - 1);
         // weights: constructions early, mutations mostly
